@@ -66,11 +66,27 @@ func rulePrefixEndShape(c *eng.Ctx) {
 			good := false
 			if se, ok := ast.Unparen(r.Results[0]).(*ast.SliceExpr); ok && se.High != nil && se.Low == nil && eng.ObjOf(info, se.X) != in {
 				// high bound i+1 with i the loop index
-				if be, ok := ast.Unparen(se.High).(*ast.BinaryExpr); ok && be.Op == token.ADD {
-					k, isK := eng.IntConst(info, be.Y)
-					if eng.ObjOf(info, be.X) == idx && isK && k == 1 {
-						good = true
+				isIdxPlus1 := func(e ast.Expr) bool {
+					be, ok := ast.Unparen(e).(*ast.BinaryExpr)
+					if !ok || be.Op != token.ADD {
+						return false
 					}
+					k, isK := eng.IntConst(info, be.Y)
+					return eng.ObjOf(info, be.X) == idx && isK && k == 1
+				}
+				if isIdxPlus1(se.High) {
+					good = true
+				} else if o := eng.ObjOf(info, se.High); o != nil {
+					// n := i + 1; return end[:n]
+					defs, ok1 := 0, false
+					ast.Inspect(loop.Body, func(y ast.Node) bool {
+						if as, ok := y.(*ast.AssignStmt); ok && len(as.Lhs) == 1 && len(as.Rhs) == 1 && eng.ObjOf(info, as.Lhs[0]) == o {
+							defs++
+							ok1 = isIdxPlus1(as.Rhs[0])
+						}
+						return true
+					})
+					good = defs == 1 && ok1
 				}
 			}
 			c.Check(good, rule, fmt.Sprintf("bytesPrefixEnd:loop-return#%d:cut-after-incremented-byte", n), r.Pos(), "returns the copy cut right after the incremented byte",
@@ -321,11 +337,31 @@ func ruleEventCollectionID(c *eng.Ctx) {
 				}
 				ord++
 				n++
-				good := false
-				if se, ok := ast.Unparen(kv.Value).(*ast.SelectorExpr); ok && se.Sel.Name == "CollectionID" {
-					if v, ok := info.Uses[se.Sel].(*types.Var); ok && v.IsField() {
-						good = true
+				isColID := func(e ast.Expr) bool {
+					se, ok := ast.Unparen(e).(*ast.SelectorExpr)
+					if !ok || se.Sel.Name != "CollectionID" {
+						return false
 					}
+					v, ok := info.Uses[se.Sel].(*types.Var)
+					return ok && v.IsField()
+				}
+				good := isColID(kv.Value)
+				if o := eng.ObjOf(info, kv.Value); !good && o != nil {
+					defs, all := 0, true
+					ast.Inspect(fi.Decl.Body, func(y ast.Node) bool {
+						if as, ok := y.(*ast.AssignStmt); ok && len(as.Lhs) == len(as.Rhs) {
+							for i, l := range as.Lhs {
+								if eng.ObjOf(info, l) == o {
+									defs++
+									if !isColID(as.Rhs[i]) {
+										all = false
+									}
+								}
+							}
+						}
+						return true
+					})
+					good = defs > 0 && all
 				}
 				c.Check(good, rule, fmt.Sprintf("%s:event.Update#%d:CollectionID", shortFn(fi), ord), kv.Pos(), "addressed by the collection's id",
 					"the update event is addressed with "+eng.ExprStr(kv.Value)+" instead of the collection version's CollectionID: after a schema patch the commit is published under an id no peer subscribes to and no replicator is registered for — nodes on different schema versions stop receiving it")
